@@ -1,1 +1,84 @@
-//! Model R — bit-vector model of `H263Reader` (filled in by the C14 check).
+//! Model R — a plain bit-vector model of `H263Reader`, written from the
+//! property statement (C14) and the reader's doc comments, not from its code.
+//! State: the bits delivered so far, and an absolute bit position.
+
+#[derive(Clone, Copy, Debug, PartialEq, Eq)]
+pub enum MErr {
+    /// End of data: the operation needs bits that have not been delivered.
+    Eof,
+    /// The request itself is invalid (width larger than the type, broken table).
+    Internal,
+}
+
+#[derive(Clone, Debug, Default)]
+pub struct ReaderModel {
+    pub data: Vec<u8>,
+    pub pos: usize,
+}
+
+impl ReaderModel {
+    pub fn avail(&self) -> usize {
+        self.data.len() * 8
+    }
+    pub fn bit(&self, i: usize) -> u64 {
+        ((self.data[i / 8] >> (7 - i % 8)) & 1) as u64
+    }
+    /// The `n` bits at the current position, MSB first, zero-extended.
+    pub fn peek(&self, n: u32, width: u32) -> Result<u64, MErr> {
+        if n > width {
+            return Err(MErr::Internal);
+        }
+        if n == 0 {
+            return Ok(0);
+        }
+        if self.pos + n as usize > self.avail() {
+            return Err(MErr::Eof);
+        }
+        let mut v = 0u64;
+        for i in 0..n as usize {
+            v = (v << 1) | self.bit(self.pos + i);
+        }
+        Ok(v)
+    }
+    /// Two's-complement sign extension of the `n`-bit value to `width` bits.
+    pub fn peek_signed(&self, n: u32, width: u32) -> Result<u64, MErr> {
+        let v = self.peek(n, width)?;
+        if n == 0 {
+            return Ok(0);
+        }
+        let mask = if width == 64 { u64::MAX } else { (1u64 << width) - 1 };
+        if (v >> (n - 1)) & 1 == 1 {
+            let ext = if n >= 64 { 0 } else { u64::MAX << n };
+            Ok((v | ext) & mask)
+        } else {
+            Ok(v)
+        }
+    }
+    pub fn skip(&mut self, n: u32) -> Result<(), MErr> {
+        if self.pos + n as usize > self.avail() {
+            return Err(MErr::Eof);
+        }
+        self.pos += n as usize;
+        Ok(())
+    }
+    /// Does a start code (16 zeros then a one) begin at absolute bit `at`?
+    /// `None` if the data ends before that can be told.
+    pub fn start_code_at(&self, at: usize) -> Option<bool> {
+        for i in 0..17 {
+            if at + i >= self.avail() {
+                return None;
+            }
+            let b = self.bit(at + i);
+            if i < 16 && b != 0 {
+                return Some(false);
+            }
+            if i == 16 {
+                return Some(b == 1);
+            }
+        }
+        None
+    }
+    pub fn realign(&self) -> usize {
+        (8 - self.pos % 8) % 8
+    }
+}
